@@ -513,6 +513,8 @@ def run_legs(ctx):
     miss = [k for k in kinds_needed if not rst["queries_by_area_kind"].get(k)]
     if miss or not any(k.startswith("OBJECT") for k in rst["queries_by_area_kind"]):
         raise common.Infra("area kinds never recorded: %s" % miss)
+    if not rst.get("named_cells_compared_with_their_rectangle"):
+        raise common.Infra("no TILE / QUADKEY / HASH search was compared with the rectangle its name denotes (vacuous)")
     if rsum["queries"] == 0 or isum["queries"] == 0 or rst["queries_with_matches"] == 0 or ist["queries_with_matches"] == 0 \
             or rst["sparse_queries"] == 0 or rst["clipby_queries"] == 0 or rst["filler_bursts"] == 0:
         raise common.Infra("recorded legs are vacuous: %s %s" % (rsum, isum))
@@ -549,6 +551,7 @@ def run_legs(ctx):
         "disagreements_by_class": m["mismatch_classes"],
         "recorded_runs": rst["runs"], "recorded_queries_judged": rsum["queries"], "recorded_queries_rejected": rsum["rejected"],
         "recorded_TEST_commands": rst["test_commands"], "recorded_queries_by_area_kind": rst["queries_by_area_kind"],
+        "named_cells_compared_with_their_rectangle": rst["named_cells_compared_with_their_rectangle"],
         "recorded_queries_by_region": rst["queries_by_region"], "recorded_object_kinds": rst["object_kinds"],
         "recorded_history_ops": rst["ops"], "recorded_queries_with_matches": rst["queries_with_matches"],
         "recorded_clipby_skipped_disjoint": rst["clipby_skipped_area_disjoint_from_rectangle"], "recorded_skipped": rst["skipped"],
